@@ -170,16 +170,16 @@ Lemma step_end p st0 o rb ts : wf_state p (SQualifiedRuleDeclarationList :: st0)
     wf_state p' st0 ts.
 Proof.
   intros (Hi & Hl & Hst & Hlv & Hpe & Hkw & Hsty).
-  unfold parse_next. cbv zeta. change (prevend (set_err p false)) with (prevend p). rewrite Hpe.
-  destruct (pop_token_ows (next_fuel p) true (set_err p false) o TRightBrace rb ts Hi Hkw Hl eq_refl (next_fuel_pos p Hi))
+  unfold parse_next. cbv zeta. change (prevend (set_buf (set_err p false) [])) with (prevend p). rewrite Hpe.
+  destruct (pop_token_ows (next_fuel p) true (set_buf (set_err p false) []) o TRightBrace rb ts Hi Hkw Hl eq_refl (next_fuel_pos p Hi))
     as (z' & Hpop & Hl' & Hi').
   rewrite Hpop. cbn [pbind fst snd].
-  cbn [set_tok relex set_err pst]. rewrite Hst.
+  cbn [set_tok relex set_err pst set_buf]. rewrite Hst.
   unfold parse_qualified_rule_declaration_list. rewrite skip_semicolons_none by (cbn; discriminate). cbn [pbind]. cbv zeta.
-  cbn [set_tok ptt]. evis. cbn [orb]. unfold pop_st. cbn [set_tok relex set_err pst]. rewrite Hst. cbn [pbind].
-  eexists. split; [reflexivity|]. cbn [set_st set_tok relex set_err ptt pdata perr].
+  cbn [set_tok ptt]. evis. cbn [orb]. unfold pop_st. cbn [set_tok relex set_err pst set_buf]. rewrite Hst. cbn [pbind].
+  eexists. split; [reflexivity|]. cbn [set_st set_tok relex set_err ptt pdata perr set_buf].
   split; [reflexivity|]. split; [reflexivity|]. split; [reflexivity|].
-  unfold wf_state. cbn [set_st set_tok relex set_err pl pst plevel prevend keepws isstyle].
+  unfold wf_state. cbn [set_st set_tok relex set_err pl pst plevel prevend keepws isstyle set_buf].
   split; [exact Hi'|]. split; [exact Hl'|]. auto.
 Qed.
 
@@ -188,10 +188,10 @@ Lemma step_eof p o : wf_state p [SStylesheet] (optws o) ->
   exists p', parse_next p = POk (GError, p') /\ perr p' = false /\ ptt p' = TError.
 Proof.
   intros (Hi & Hl & Hst & Hlv & Hpe & Hkw & Hsty).
-  unfold parse_next. cbv zeta. change (prevend (set_err p false)) with (prevend p). rewrite Hpe.
-  destruct (pop_token_eof_ows (next_fuel p) true (set_err p false) o Hkw Hl (next_fuel_pos p Hi)) as (b & z' & Hpop).
+  unfold parse_next. cbv zeta. change (prevend (set_buf (set_err p false) [])) with (prevend p). rewrite Hpe.
+  destruct (pop_token_eof_ows (next_fuel p) true (set_buf (set_err p false) []) o Hkw Hl (next_fuel_pos p Hi)) as (b & z' & Hpop).
   rewrite Hpop. cbn [pbind fst snd].
-  cbn [set_tok relex set_err pst]. rewrite Hst. unfold parse_stylesheet. cbn [set_tok ptt]. evis. cbn [orb].
+  cbn [set_tok relex set_err pst set_buf]. rewrite Hst. unfold parse_stylesheet. cbn [set_tok ptt]. evis. cbn [orb].
   eexists. split; [reflexivity|]. split; reflexivity.
 Qed.
 
@@ -585,9 +585,9 @@ Proof.
     rewrite app_length. cbn [length]. rewrite app_length. rewrite app_length. cbn [length]. pose proof (src_toks_len sl) as Hsl.
     clear - Hsl. unfold wtok, tok in *. lia. }
   destruct HN as (f' & HN). assert (HF : (1 <= next_fuel p)%nat) by (apply next_fuel_pos; exact Hi).
-  unfold parse_next. cbv zeta. change (prevend (set_err p false)) with (prevend p). rewrite Hpe.
-  destruct (pop_token_ows (next_fuel p) true (set_err p false) o1 t1 b1 _ Hi Hkw Hl Hp1 HF) as (z1 & Hpop & Hl1 & Hi1).
-  rewrite Hpop. cbn [pbind fst snd]. cbn [set_tok relex set_err pst]. rewrite Hst.
+  unfold parse_next. cbv zeta. change (prevend (set_buf (set_err p false) [])) with (prevend p). rewrite Hpe.
+  destruct (pop_token_ows (next_fuel p) true (set_buf (set_err p false) []) o1 t1 b1 _ Hi Hkw Hl Hp1 HF) as (z1 & Hpop & Hl1 & Hi1).
+  rewrite Hpop. cbn [pbind fst snd]. cbn [set_tok relex set_err pst set_buf]. rewrite Hst.
   rewrite (rule_dispatch s st0 _ _ Hctx) by (cbn [set_tok ptt]; assumption).
   unfold parse_qualified_rule.
   assert (Hq : forall q, qualified_loop (next_fuel p) (next_fuel p) q true false true =
@@ -655,10 +655,10 @@ Lemma decl_head p s st0 o1 prop ts : decl_ctx s -> wf_state p (s :: st0) (optws 
     plevel p0 = 0 /\ prevend p0 = false /\ keepws p0 = false /\ isstyle p0 = true /\ perr p0 = false.
 Proof.
   intros Hctx (Hi & Hl & Hst & Hlv & Hpe & Hkw & Hsty).
-  unfold parse_next. cbv zeta. change (prevend (set_err p false)) with (prevend p). rewrite Hpe.
-  destruct (pop_token_ows (next_fuel p) true (set_err p false) o1 TIdent prop ts Hi Hkw Hl eq_refl (next_fuel_pos p Hi))
+  unfold parse_next. cbv zeta. change (prevend (set_buf (set_err p false) [])) with (prevend p). rewrite Hpe.
+  destruct (pop_token_ows (next_fuel p) true (set_buf (set_err p false) []) o1 TIdent prop ts Hi Hkw Hl eq_refl (next_fuel_pos p Hi))
     as (z1 & Hpop & Hl1 & Hi1).
-  rewrite Hpop. cbn [pbind fst snd]. cbn [set_tok relex set_err pst]. rewrite Hst.
+  rewrite Hpop. cbn [pbind fst snd]. cbn [set_tok relex set_err pst set_buf]. rewrite Hst.
   rewrite (decl_dispatch s st0 _ _ Hctx) by (cbn [set_tok ptt]; first [discriminate|reflexivity]).
   unfold parse_declaration_list. cbn [set_tok ptt]. evis. cbn [pbind].
   rewrite skip_semicolons_none by (cbn; discriminate). cbn [pbind set_tok ptt]. evis. cbn [pbind orb]. cbv zeta. cbn [set_tok ptt]. evis.
@@ -790,21 +790,21 @@ Lemma nest_head p s st0 o1 t1 b1 ts : decl_ctx s -> wf_state p (s :: st0) (optws
 Proof.
   intros Hctx (Hi & Hl & Hst & Hlv & Hpe & Hkw & Hsty) Hfirst. unfold nest_first in Hfirst. cbn [fst snd] in Hfirst.
   assert (Hp1 : plain_tok t1 = true) by (destruct t1; try discriminate Hfirst; reflexivity).
-  unfold parse_next. cbv zeta. change (prevend (set_err p false)) with (prevend p). rewrite Hpe.
-  destruct (pop_token_ows (next_fuel p) true (set_err p false) o1 t1 b1 ts Hi Hkw Hl Hp1 (next_fuel_pos p Hi))
+  unfold parse_next. cbv zeta. change (prevend (set_buf (set_err p false) [])) with (prevend p). rewrite Hpe.
+  destruct (pop_token_ows (next_fuel p) true (set_buf (set_err p false) []) o1 t1 b1 ts Hi Hkw Hl Hp1 (next_fuel_pos p Hi))
     as (z1 & Hpop & Hl1 & Hi1).
   assert (Hne : exists c b', b1 = c :: b').
   { destruct o1 as [wb|]; cbn [optws app] in Hl.
     - destruct (lexes_cons _ _ _ _ Hl) as (z0 & Hn0 & Hl0 & _). apply (lexes_nonempty z0 t1 b1 ts (css_inv_next _ _ _ _ Hi Hn0) Hl0).
     - apply (lexes_nonempty _ _ _ _ Hi Hl). }
-  rewrite Hpop. cbn [pbind fst snd]. cbn [set_tok relex set_err pst]. rewrite Hst.
+  rewrite Hpop. cbn [pbind fst snd]. cbn [set_tok relex set_err pst set_buf]. rewrite Hst.
   rewrite (decl_dispatch s st0 _ _ Hctx) by (cbn [set_tok ptt]; destruct t1; try discriminate Hfirst; first [discriminate|reflexivity]).
   destruct (is_t t1 TDelim) eqn:Ed.
   - apply is_t_eq in Ed. subst t1. cbn in Hfirst. apply negb_true_iff in Hfirst. destruct Hne as (c & b' & ->). cbn [hd0] in Hfirst.
     unfold parse_declaration_list; cbn [set_tok ptt]; evis; cbn [pbind];
     (rewrite skip_semicolons_none by (cbn; discriminate)); cbn [pbind set_tok ptt pdata]; evis. rewrite peekz_0. cbn [of_opt pbind].
     rewrite Hfirst. cbn [pbind]; cbv zeta; cbn [set_tok ptt]; evis;
-    cbn [orb andb isstyle set_tok relex set_err]; rewrite ?Hsty; cbn [orb andb];
+    cbn [orb andb isstyle set_tok relex set_err set_buf]; rewrite ?Hsty; cbn [orb andb];
     unfold parse_declaration; cbn [set_tok ptt pdata]; evis; cbv beta iota;
     (eexists; split; [reflexivity|];
      cbn [set_level set_buf set_tok relex set_err pl pbuf ptt pdata pst plevel prevend keepws isstyle perr];
@@ -812,7 +812,7 @@ Proof.
   - destruct t1; try discriminate Hfirst; try discriminate Ed;
     unfold parse_declaration_list; cbn [set_tok ptt]; evis; cbn [pbind];
     (rewrite skip_semicolons_none by (cbn; discriminate)); cbn [pbind set_tok ptt]; evis; cbn [pbind orb]; cbv zeta; cbn [set_tok ptt]; evis;
-    cbn [orb andb isstyle set_tok relex set_err]; rewrite ?Hsty; cbn [orb andb];
+    cbn [orb andb isstyle set_tok relex set_err set_buf]; rewrite ?Hsty; cbn [orb andb];
     unfold parse_declaration; cbn [set_tok ptt pdata]; evis; cbv beta iota;
     (eexists; split; [reflexivity|];
      cbn [set_level set_buf set_tok relex set_err pl pbuf ptt pdata pst plevel prevend keepws isstyle perr];
@@ -892,14 +892,14 @@ Lemma step_comment p o cb ts : wf_state p [SStylesheet] (optws o ++ (TComment, c
     wf_state p' [SStylesheet] ts.
 Proof.
   intros (Hi & Hl & Hst & Hlv & Hpe & Hkw & Hsty).
-  unfold parse_next. cbv zeta. change (prevend (set_err p false)) with (prevend p). rewrite Hpe.
-  destruct (pop_token_comment (next_fuel p) (set_err p false) o cb ts Hkw ltac:(cbn [set_err pst]; rewrite Hst; reflexivity)
+  unfold parse_next. cbv zeta. change (prevend (set_buf (set_err p false) [])) with (prevend p). rewrite Hpe.
+  destruct (pop_token_comment (next_fuel p) (set_buf (set_err p false) []) o cb ts Hkw ltac:(cbn [set_err pst set_buf]; rewrite Hst; reflexivity)
               (next_fuel_2 p) Hl Hi) as (z' & Hpop & Hl' & Hi').
-  rewrite Hpop. cbn [pbind fst snd]. cbn [set_tok relex set_err pst]. rewrite Hst.
+  rewrite Hpop. cbn [pbind fst snd]. cbn [set_tok relex set_err pst set_buf]. rewrite Hst.
   unfold parse_stylesheet. cbn [set_tok ptt]. evis. cbn [orb].
-  eexists. split; [reflexivity|]. cbn [set_tok relex set_err ptt pdata perr].
+  eexists. split; [reflexivity|]. cbn [set_tok relex set_err ptt pdata perr set_buf].
   split; [reflexivity|]. split; [reflexivity|]. split; [reflexivity|].
-  unfold wf_state. cbn [set_tok relex set_err pl pst plevel prevend keepws isstyle].
+  unfold wf_state. cbn [set_tok relex set_err pl pst plevel prevend keepws isstyle set_buf].
   split; [exact Hi'|]. split; [exact Hl'|]. auto.
 Qed.
 
@@ -911,13 +911,13 @@ Lemma step_cd p o t b ts : wf_state p [SStylesheet] (optws o ++ (t, b) :: ts) ->
 Proof.
   intros (Hi & Hl & Hst & Hlv & Hpe & Hkw & Hsty) Hcd.
   assert (Hp : plain_tok t = true) by (destruct t; try discriminate Hcd; reflexivity).
-  unfold parse_next. cbv zeta. change (prevend (set_err p false)) with (prevend p). rewrite Hpe.
-  destruct (pop_token_ows (next_fuel p) true (set_err p false) o t b ts Hi Hkw Hl Hp (next_fuel_pos p Hi)) as (z' & Hpop & Hl' & Hi').
-  rewrite Hpop. cbn [pbind fst snd]. cbn [set_tok relex set_err pst]. rewrite Hst.
+  unfold parse_next. cbv zeta. change (prevend (set_buf (set_err p false) [])) with (prevend p). rewrite Hpe.
+  destruct (pop_token_ows (next_fuel p) true (set_buf (set_err p false) []) o t b ts Hi Hkw Hl Hp (next_fuel_pos p Hi)) as (z' & Hpop & Hl' & Hi').
+  rewrite Hpop. cbn [pbind fst snd]. cbn [set_tok relex set_err pst set_buf]. rewrite Hst.
   unfold parse_stylesheet. cbn [set_tok ptt]. unfold is_cd in Hcd. rewrite Hcd.
-  eexists. split; [reflexivity|]. cbn [set_tok relex set_err ptt pdata perr].
+  eexists. split; [reflexivity|]. cbn [set_tok relex set_err ptt pdata perr set_buf].
   split; [reflexivity|]. split; [reflexivity|]. split; [reflexivity|].
-  unfold wf_state. cbn [set_tok relex set_err pl pst plevel prevend keepws isstyle].
+  unfold wf_state. cbn [set_tok relex set_err pl pst plevel prevend keepws isstyle set_buf].
   split; [exact Hi'|]. split; [exact Hl'|]. auto.
 Qed.
 
@@ -1006,10 +1006,10 @@ Proof.
     rewrite app_length. cbn [length]. rewrite app_length. cbn [length]. rewrite app_length. cbn [length].
     clear. unfold tok. lia. }
   destruct HN as (f' & HN). assert (HF : (1 <= next_fuel p)%nat) by (apply next_fuel_pos; exact Hi).
-  unfold parse_next. cbv zeta. change (prevend (set_err p false)) with (prevend p). rewrite Hpe.
-  destruct (pop_token_ows (next_fuel p) true (set_err p false) o1 TCustomPropertyName name _ Hi Hkw Hl eq_refl HF)
+  unfold parse_next. cbv zeta. change (prevend (set_buf (set_err p false) [])) with (prevend p). rewrite Hpe.
+  destruct (pop_token_ows (next_fuel p) true (set_buf (set_err p false) []) o1 TCustomPropertyName name _ Hi Hkw Hl eq_refl HF)
     as (z1 & Hpop & Hl1 & Hi1).
-  rewrite Hpop. cbn [pbind fst snd]. cbn [set_tok relex set_err pst]. rewrite Hst.
+  rewrite Hpop. cbn [pbind fst snd]. cbn [set_tok relex set_err pst set_buf]. rewrite Hst.
   rewrite (custom_dispatch s st0 _ _ Hctx) by reflexivity.
   unfold parse_custom_property.
   match goal with |- context [pop_token _ false ?q] => set (q0 := q) end.
@@ -1223,10 +1223,10 @@ Proof.
   intros Hs1 Hs2 (Hi & Hl & Hst & Hlv & Hpe & Hkw & Hsty).
   destruct (at_rule_h_total (to_lower name)) as (h & Hh); [rewrite len_to_lower; eapply lexes_at_len; eassumption|].
   exists h.
-  unfold parse_next. cbv zeta. change (prevend (set_err p false)) with (prevend p). rewrite Hpe.
-  destruct (pop_token_ows (next_fuel p) true (set_err p false) o1 TAtKeyword name ts Hi Hkw Hl eq_refl (next_fuel_pos p Hi))
+  unfold parse_next. cbv zeta. change (prevend (set_buf (set_err p false) [])) with (prevend p). rewrite Hpe.
+  destruct (pop_token_ows (next_fuel p) true (set_buf (set_err p false) []) o1 TAtKeyword name ts Hi Hkw Hl eq_refl (next_fuel_pos p Hi))
     as (z1 & Hpop & Hl1 & Hi1).
-  rewrite Hpop. cbn [pbind fst snd]. cbn [set_tok relex set_err pst]. rewrite Hst.
+  rewrite Hpop. cbn [pbind fst snd]. cbn [set_tok relex set_err pst set_buf]. rewrite Hst.
   rewrite (at_dispatch s st0 _ _ Hs1 Hs2) by reflexivity.
   rewrite parse_at_rule_eq. cbn [set_tok pdata ptt]. rewrite Hh. cbn [pbind].
   eexists. split; [reflexivity|]. split; [reflexivity|].
@@ -1291,19 +1291,19 @@ Lemma step_close p f st0 o rb ts : wf_state p (frame_state f :: st0) (optws o ++
     wf_state p' st0 ts.
 Proof.
   intros (Hi & Hl & Hst & Hlv & Hpe & Hkw & Hsty).
-  unfold parse_next. cbv zeta. change (prevend (set_err p false)) with (prevend p). rewrite Hpe.
-  destruct (pop_token_ows (next_fuel p) true (set_err p false) o TRightBrace rb ts Hi Hkw Hl eq_refl (next_fuel_pos p Hi))
+  unfold parse_next. cbv zeta. change (prevend (set_buf (set_err p false) [])) with (prevend p). rewrite Hpe.
+  destruct (pop_token_ows (next_fuel p) true (set_buf (set_err p false) []) o TRightBrace rb ts Hi Hkw Hl eq_refl (next_fuel_pos p Hi))
     as (z' & Hpop & Hl' & Hi').
   rewrite Hpop. cbn [pbind fst snd].
-  cbn [set_tok relex set_err pst]. rewrite Hst.
+  cbn [set_tok relex set_err pst set_buf]. rewrite Hst.
   destruct f; cbn [frame_state close_g];
     [unfold parse_qualified_rule_declaration_list; rewrite skip_semicolons_none by (cbn; discriminate); cbn [pbind]; cbv zeta
     |unfold parse_at_rule_rule_list
     |unfold parse_at_rule_declaration_list; rewrite skip_semicolons_none by (cbn; discriminate); cbn [pbind]; cbv zeta];
-    cbn [set_tok ptt]; evis; cbn [orb]; unfold pop_st; cbn [set_tok relex set_err pst]; rewrite Hst; cbn [pbind];
-    (eexists; split; [reflexivity|]; cbn [set_st set_tok relex set_err ptt pdata perr];
+    cbn [set_tok ptt]; evis; cbn [orb]; unfold pop_st; cbn [set_tok relex set_err pst set_buf]; rewrite Hst; cbn [pbind];
+    (eexists; split; [reflexivity|]; cbn [set_st set_tok relex set_err ptt pdata perr set_buf];
      split; [reflexivity|]; split; [reflexivity|]; split; [reflexivity|];
-     unfold wf_state; cbn [set_st set_tok relex set_err pl pst plevel prevend keepws isstyle];
+     unfold wf_state; cbn [set_st set_tok relex set_err pl pst plevel prevend keepws isstyle set_buf];
      split; [exact Hi'|]; split; [exact Hl'|]; auto).
 Qed.
 
@@ -1313,16 +1313,16 @@ Lemma step_close_pend p f st0 ts : wf_pend p (frame_state f :: st0) ts ->
     wf_state p' st0 ts.
 Proof.
   intros (Hi & Hl & Hst & Hlv & Hpe & Hkw & Hsty).
-  unfold parse_next. cbv zeta. change (prevend (set_err p false)) with (prevend p). rewrite Hpe. cbn [pbind].
-  cbn [set_prevend set_tok set_err pst]. rewrite Hst.
+  unfold parse_next. cbv zeta. change (prevend (set_buf (set_err p false) [])) with (prevend p). rewrite Hpe. cbn [pbind].
+  cbn [set_prevend set_tok set_err pst set_buf]. rewrite Hst.
   destruct f; cbn [frame_state close_g];
     [unfold parse_qualified_rule_declaration_list; rewrite skip_semicolons_none by (cbn; discriminate); cbn [pbind]; cbv zeta
     |unfold parse_at_rule_rule_list
     |unfold parse_at_rule_declaration_list; rewrite skip_semicolons_none by (cbn; discriminate); cbn [pbind]; cbv zeta];
-    cbn [set_prevend set_tok ptt]; evis; cbn [orb]; unfold pop_st; cbn [set_prevend set_tok set_err pst]; rewrite Hst; cbn [pbind];
-    (eexists; split; [reflexivity|]; cbn [set_st set_prevend set_tok set_err ptt pdata perr];
+    cbn [set_prevend set_tok ptt]; evis; cbn [orb]; unfold pop_st; cbn [set_prevend set_tok set_err pst set_buf]; rewrite Hst; cbn [pbind];
+    (eexists; split; [reflexivity|]; cbn [set_st set_prevend set_tok set_err ptt pdata perr set_buf];
      split; [reflexivity|]; split; [reflexivity|]; split; [reflexivity|];
-     unfold wf_state; cbn [set_st set_prevend set_tok set_err pl pst plevel prevend keepws isstyle];
+     unfold wf_state; cbn [set_st set_prevend set_tok set_err pl pst plevel prevend keepws isstyle set_buf];
      split; [exact Hi|]; split; [exact Hl|]; auto).
 Qed.
 
